@@ -217,7 +217,7 @@ class Session:
         self.bounded = []
         self.notes = []
         self.samples = []
-        self.query_timeout_ms = 10_000 if tier == "quick" else 60_000
+        self.query_timeout_ms = 30_000 if tier == "quick" else 90_000  # generous: verdicts must not flip under load
         self.checker_cmd = checker_cmd or f"./check {prop} --tier {tier}"
         self.cross_check = tier == "thorough"
         self.solver_seconds = 0.0
@@ -478,6 +478,39 @@ class Session:
         self.by_backend[backend]["queries"] += 1
         return ob
 
+    def engine_limit(self, oid, reason, *, function=None, group=None):
+        """The verifier could not bring the current source of `function` within its reach (unsupported construct, path or
+        time budget). This says nothing about the property: the caller must run the bounded stand-in registered for
+        `group` (resolve_engine_limits); until then the obligation is pending."""
+        ob = self._new(oid, "post", function)
+        ob.status = "engine-limit"
+        ob.backend = "engine"
+        ob.detail = {"reason": str(reason)[:800], "group": group}
+        return ob
+
+    def resolve_engine_limits(self, group, standin, *, bound_text):
+        """`standin()` -> (ok, evaluations, info): the bounded check of the real code that stands in for the obligations of
+        `group` the verifier could not generate. ok: they are recorded as *bounded only* (never counted as proved, the
+        run's evidence level drops to exploration, a NOT-PROVED line is printed); not ok: a violation with the failing
+        input. Without a stand-in (standin is None) an engine limit is reported as a violation without input."""
+        pend = [o for o in self.obligations if o.status == "engine-limit" and (o.detail or {}).get("group") == group]
+        if not pend:
+            return None
+        if standin is None:
+            for o in pend:
+                o.status = "pending"
+                self._not_proved(o, None, None, "engine", reason=(o.detail or {}).get("reason", "engine limit"))
+            return False
+        ok, n, info = standin()
+        for o in pend:
+            o.status = "bounded-only" if ok else "superseded"
+        self.bounded_check(f"{self.prop}/bounded/stand-in-for/{group}", ok, bound=bound_text, evaluations=n,
+                           function=pend[0].function,
+                           detail={"stands_in_for": [o.id for o in pend][:10], "verifier_said": (pend[0].detail or {}).get("reason", "")[:300]},
+                           replay=(lambda m: {"confirmed": True, "input": (info or {}).get("input"), "observed": (info or {}).get("observed"),
+                                              "expected": (info or {}).get("expected")}) if not ok else None)
+        return ok
+
     def undecided(self, oid, reason, *, function=None, kind="post"):
         """the engine could not establish an obligation (unsupported construct, path limit, ...): by the policy stated
         in _not_proved this is reported, with the reason, as a violation without a failing input"""
@@ -595,7 +628,16 @@ class Session:
         proof_obs = [o for o in self.obligations if o.kind not in ("cover", "canary", "bounded")]
         guards = [o for o in self.obligations if o.kind in ("cover", "canary")]
         bounded = [o for o in self.obligations if o.kind == "bounded"]
+        for o in self.obligations:
+            if o.status == "engine-limit":  # nobody resolved it: reported, by the policy of _not_proved
+                o.status = "pending"
+                self._not_proved(o, None, None, "engine", reason=(o.detail or {}).get("reason", "engine limit"))
         failed = [o for o in self.obligations if o.status == "failed"]
+        bounded_only = [o for o in proof_obs if o.status == "bounded-only"]
+        for o in bounded_only:
+            lines_pre = f"NOT-PROVED: property={self.prop} {o.id}: outside the verifier's reach ({(o.detail or {}).get('reason', '')[:160]}); a bounded stand-in was run instead"
+            print(lines_pre)
+        proof_obs = [o for o in proof_obs if o.status != "superseded"]
         undecided = [o for o in proof_obs if o.status == "undecided"]
         broken_guards = [o for o in guards if o.status != "ok"]
 
@@ -642,6 +684,7 @@ class Session:
             "solver_seconds": round(self.solver_seconds, 3),
             "functions_under_contract": list(self.functions.values()),
             "undecided": [o.to_json() for o in undecided],
+            "not_proved_bounded_only": [o.to_json() for o in bounded_only],
             "failed": [o.to_json() for o in failed],
             "known_findings_reported": known_reported,
             "covers": sum(1 for o in guards if o.kind == "cover"),
